@@ -61,7 +61,7 @@ def run(chk):
                          "merge_faces. non-trivial = has a non-triangular face (merging/sorting matters)")
     cases, meta = [], []
     for _ in range(nshape):
-        kind, V = gen.convex_set(rng, kinds=("ellipsoid", "lattice", "lattice", "prismatic", "prismatic", "flat", "needle", "creased"))
+        kind, V = gen.convex_set(rng, kinds=("ellipsoid", "lattice", "lattice", "prismatic", "prismatic", "flat", "needle", "creased", "chamfered"))
         for order in range(2):
             Vp = V[rng.permutation(len(V))] if order else V
             st, p = C.excname(coxeter.shapes.ConvexPolyhedron, Vp)
